@@ -3614,6 +3614,12 @@ func restartSubtree(ctx context.Context, node *restartNode, parent *PID, tree *t
 		runtime.Gosched()
 	}
 
+	// Return the scheduling state to Idle while the actor is still stopped.
+	// Doing it after init() would race with a worker that already took the
+	// actor for a message accepted once it is running again: the reset would
+	// let a second worker run the same actor concurrently.
+	pid.schedState.reset()
+
 	pid.resetBehavior()
 	if err := pid.init(ctx); err != nil {
 		return err
@@ -3647,7 +3653,6 @@ func restartSubtree(ctx context.Context, node *restartNode, parent *PID, tree *t
 		return fmt.Errorf("actor=(%s) failed to restart: %w", pid.Name(), err)
 	}
 
-	pid.schedState.reset()
 	pid.setState(suspendedState, false)
 	pid.startPassivation()
 
